@@ -43,6 +43,8 @@ type c12Canon struct {
 }
 
 func runC12(r *core.Run) {
+	defer racePass(r, "race-sequtil", "ReverseComplement(String), DNATo2Bit/From2Bit, Translate(ReadingFrames), CanonicalSubsequences, AminoName on one shared src")
+
 	L := core.Pick(r, 4, 7)
 	r.Bound("revcomp", fmt.Sprintf("all sequences over %s of length 0..%d x 3 dst variants", dna10, L))
 	core.Clause(r, "revcomp", core.Opts{Rule: "every sequence over aAcCgGtTnN up to the length bound x dst in {nil, 1 byte cap 1, 2 bytes + 8 spare}; non-trivial = length >= 2"},
